@@ -124,8 +124,10 @@ theorem normalize_hits_target_jy (P : PhysConst K) (T : Transc K) (hP : P.Pos) (
   have hk : k = target * (std / trapz obs) := by simp [k, factorValue, FluxUnit.isMag]
   have hkpos : 0 < k := by rw [hk]; positivity
   obtain ⟨hwp, hsq⟩ := pivot_sq hT _ _ hA hB
-  rw [effstimFlam_scaled obs band (P.h * P.c) k (mul_pos hh hc) hkpos hpos htot hB,
-    convert_flam_jy P T hP s wp _ hwp]
+  have he : C09.effstimFlam (obs.map fun p => (p.1, k * p.2 * (P.h * P.c) / p.1)) band =
+      k * (P.h * P.c) * trapz obs / trapz (C09.timesLam band) :=
+    effstimFlam_scaled obs band (P.h * P.c) k (mul_pos hh hc) hkpos hpos htot hB
+  rw [he, convert_flam_jy P T hP s wp _ hwp]
   congr 1
   show _ * (wp * wp) / _ / _ = _
   rw [hsq, hk, hstd]
@@ -149,7 +151,10 @@ theorem normalize_hits_target_stmag (P : PhysConst K) (T : Transc K) (hP : P.Pos
   have hk : k = ofMag T target * (std / trapz obs) := factorValue_mag hT .stmag rfl _ _ _ htot hstdpos
   have hm := ofMag_pos hT target
   have hkpos : 0 < k := by rw [hk]; positivity
-  rw [effstimFlam_scaled obs band (P.h * P.c) k (mul_pos hh hc) hkpos hpos htot hB]
+  have he : C09.effstimFlam (obs.map fun p => (p.1, k * p.2 * (P.h * P.c) / p.1)) band =
+      k * (P.h * P.c) * trapz obs / trapz (C09.timesLam band) :=
+    effstimFlam_scaled obs band (P.h * P.c) k (mul_pos hh hc) hkpos hpos htot hB
+  rw [he]
   have e : k * (P.h * P.c) * trapz obs / trapz (C09.timesLam band) / P.stZero = ofMag T target := by
     rw [hk, hstd]
     have h1 := ne_of_gt htot; have h2 := ne_of_gt hB; have h3 := ne_of_gt hh
@@ -176,8 +181,10 @@ theorem normalize_hits_target_abmag (P : PhysConst K) (T : Transc K) (hP : P.Pos
   have hm := ofMag_pos hT target
   have hkpos : 0 < k := by rw [hk]; positivity
   obtain ⟨hwp, hsq⟩ := pivot_sq hT _ _ hA hB
-  rw [effstimFlam_scaled obs band (P.h * P.c) k (mul_pos hh hc) hkpos hpos htot hB,
-    convert_flam_abmag P T hP wp _ hwp]
+  have he : C09.effstimFlam (obs.map fun p => (p.1, k * p.2 * (P.h * P.c) / p.1)) band =
+      k * (P.h * P.c) * trapz obs / trapz (C09.timesLam band) :=
+    effstimFlam_scaled obs band (P.h * P.c) k (mul_pos hh hc) hkpos hpos htot hB
+  rw [he, convert_flam_abmag P T hP wp _ hwp]
   have e : k * (P.h * P.c) * trapz obs / trapz (C09.timesLam band) * (wp * wp) / P.c / P.abZero = ofMag T target := by
     rw [hsq, hk, hstd]
     have h1 := ne_of_gt htot; have h2 := ne_of_gt hB; have h3 := ne_of_gt hh; have h4 := ne_of_gt hA
@@ -305,5 +312,1020 @@ theorem band_must_be_bandpass (E : Env K) (P : OverlapPar K) (self band : Spec K
     (hb : band.kind ≠ .bandpass) :
     normalizeFactor E P self band target u wl force area vega = .error .synphotError := by
   simp [normalizeFactor, hb, bind, Except.bind]
+
+/-! ## Deepening: the call as a whole (`normalizeFactor`)
+
+`normalizeAdmit` (class check, overlap verdict, switch to extrapolation) and `normalizeScalar`
+(everything after it, for the admitted operand) are the two halves of `normalizeFactor`
+(Lemmas/C10x.lean); `normalizeIntegrals` are the two band integrals `(totalflux, stdflux)`. -/
+
+/-- `normalize` is: the admission of the operand, then the scalar for the admitted operand -/
+theorem normalize_admit_then_scalar (E : Env K) (P : OverlapPar K) (self band : Spec K) (target : K)
+    (u : FluxUnit K) (wl : Option (List K)) (force : Bool) (area : Option K) (vega : Option (Synphot.Tree K)) :
+    normalizeFactor E P self band target u wl force area vega =
+      (do let (s', w) ← normalizeAdmit E P self band wl force
+          let k ← normalizeScalar E P s' band target u wl area vega
+          pure (k, s', w)) := normalizeFactor_eq E P self band target u wl force area vega
+
+/-- the admission, verdict by verdict -/
+theorem admit_verdicts (E : Env K) (P : OverlapPar K) (self band : Spec K) (wl : Option (List K)) (force : Bool)
+    (hb : band.kind = .bandpass) :
+    (checkOverlap E P band self wl = .ok .full → normalizeAdmit E P self band wl force = .ok (self, false)) ∧
+    (checkOverlap E P band self wl = .ok .partialMost →
+      normalizeAdmit E P self band wl force = .ok ((self.forceExtrap).1, true)) ∧
+    (checkOverlap E P band self wl = .ok .partialNotMost → force = true →
+      normalizeAdmit E P self band wl force = .ok ((self.forceExtrap).1, true)) ∧
+    (checkOverlap E P band self wl = .ok .partialNotMost → force = false →
+      normalizeAdmit E P self band wl force = .error .partialOverlap) ∧
+    (checkOverlap E P band self wl = .ok .none → normalizeAdmit E P self band wl force = .error .disjointError) := by
+  refine ⟨?_, ?_, ?_, ?_, ?_⟩ <;> intro hv
+  · simp [normalizeAdmit, hb, hv, bind, Except.bind, pure, Except.pure]
+  · simp [normalizeAdmit, hb, hv, bind, Except.bind, pure, Except.pure]
+  · intro hf; simp [normalizeAdmit, hb, hv, hf, bind, Except.bind, pure, Except.pure]
+  · intro hf; simp [normalizeAdmit, hb, hv, hf, bind, Except.bind]
+  · simp [normalizeAdmit, hb, hv, bind, Except.bind]
+
+/-- **partial overlap proceeds** when at least 99 % of the throughput is covered, or when forced: the
+result is the scalar computed for the operand switched to extrapolation, which is returned as the
+operand's new state together with the warning -/
+theorem partial_overlap_proceeds (E : Env K) (P : OverlapPar K) (self band : Spec K) (target : K)
+    (u : FluxUnit K) (wl : Option (List K)) (force : Bool) (area : Option K) (vega : Option (Synphot.Tree K))
+    (hb : band.kind = .bandpass)
+    (hv : checkOverlap E P band self wl = .ok .partialMost ∨
+      (checkOverlap E P band self wl = .ok .partialNotMost ∧ force = true)) :
+    normalizeFactor E P self band target u wl force area vega =
+      (normalizeScalar E P (self.forceExtrap).1 band target u wl area vega).map
+        fun k => (k, (self.forceExtrap).1, true) := by
+  obtain ⟨_, h2, h3, _, _⟩ := admit_verdicts E P self band wl force hb
+  have hadm : normalizeAdmit E P self band wl force = .ok ((self.forceExtrap).1, true) := by
+    rcases hv with hv | ⟨hv, hf⟩
+    · exact h2 hv
+    · exact h3 hv hf
+  rw [normalizeFactor_eq, hadm]
+  simp only [ok_bind']
+  cases normalizeScalar E P (self.forceExtrap).1 band target u wl area vega <;> rfl
+
+/-- **missing area**: a count or OBMAG target without an area never returns a spectrum -/
+theorem missing_area_raises (E : Env K) (P : OverlapPar K) (self band : Spec K) (target : K)
+    (u : FluxUnit K) (hu : u = .count ∨ u = .obmag) (wl : Option (List K)) (force : Bool)
+    (vega : Option (Synphot.Tree K)) (r : K × Spec K × Bool) :
+    normalizeFactor E P self band target u wl force none vega ≠ .ok r := by
+  intro h
+  obtain ⟨k, s', w⟩ := r
+  exact normalizeScalar_noarea E P s' band target u wl vega hu k (normalizeFactor_ok h).2
+
+/-- … and when the operand is admitted and source × band can be sampled, what is raised is `SynphotError` -/
+theorem missing_area_error_class (E : Env K) (P : OverlapPar K) (self band : Spec K) (target : K)
+    (u : FluxUnit K) (hu : u = .count ∨ u = .obmag) (wl : Option (List K)) (force : Bool)
+    (vega : Option (Synphot.Tree K)) (s' : Spec K) (wn : Bool) (sm bm : Synphot.Tree K) (w yp : List K)
+    (hadm : normalizeAdmit E P self band wl force = .ok (s', wn))
+    (h1 : s'.model = .ok sm) (h2 : band.model = .ok bm)
+    (hw : wavelengthsOr P.mergeThr (.bin .mul sm bm) wl = .ok w)
+    (hyp : sampleTree E (.bin .mul sm bm) w = .ok yp) :
+    normalizeFactor E P self band target u wl force none vega = .error .synphotError := by
+  rw [normalizeFactor_eq, hadm]
+  simp only [ok_bind', normalizeScalar_noarea_class E P s' band target u wl vega hu sm bm w yp h1 h2 hw hyp]
+  rfl
+
+/-- **missing Vega spectrum**: a VEGAMAG target without one never returns a spectrum -/
+theorem missing_vega_raises (E : Env K) (P : OverlapPar K) (self band : Spec K) (target : K)
+    (wl : Option (List K)) (force : Bool) (area : Option K) (r : K × Spec K × Bool) :
+    normalizeFactor E P self band target .vegamag wl force area none ≠ .ok r := by
+  intro h
+  obtain ⟨k, s', w⟩ := r
+  exact normalizeScalar_novega E P s' band target wl area k (normalizeFactor_ok h).2
+
+/-- … and when the operand is admitted and its band integral can be formed, it is `SynphotError` -/
+theorem missing_vega_error_class (E : Env K) (P : OverlapPar K) (self band : Spec K) (target : K)
+    (wl : Option (List K)) (force : Bool) (area : Option K)
+    (s' : Spec K) (wn : Bool) (sm bm : Synphot.Tree K) (w : List K) (total : K)
+    (hadm : normalizeAdmit E P self band wl force = .ok (s', wn))
+    (h1 : s'.model = .ok sm) (h2 : band.model = .ok bm)
+    (hw : wavelengthsOr P.mergeThr (.bin .mul sm bm) wl = .ok w)
+    (ht : integrateTrapz E (.bin .mul sm bm) w = .ok total) :
+    normalizeFactor E P self band target .vegamag wl force area none = .error .synphotError := by
+  rw [normalizeFactor_eq, hadm]
+  simp only [ok_bind', normalizeScalar_novega_class E P s' band target wl area sm bm w total h1 h2 hw ht]
+  rfl
+
+/-- **non-positive band integral**: once both band integrals are formed, a source integral `≤ 0`
+(count sum for count/OBMAG) raises `SynphotError` — for every unit, target and `force` -/
+theorem nonpositive_band_integral_raises (E : Env K) (P : OverlapPar K) (self band : Spec K) (target : K)
+    (u : FluxUnit K) (wl : Option (List K)) (force : Bool) (area : Option K) (vega : Option (Synphot.Tree K))
+    (s' : Spec K) (wn : Bool) (sm bm : Synphot.Tree K) (total std : K)
+    (hadm : normalizeAdmit E P self band wl force = .ok (s', wn))
+    (h1 : s'.model = .ok sm) (h2 : band.model = .ok bm)
+    (h3 : normalizeIntegrals E P sm bm u wl area vega = .ok (total, std)) (ht : total ≤ 0) :
+    normalizeFactor E P self band target u wl force area vega = .error .synphotError := by
+  rw [normalizeFactor_eq, hadm]
+  simp only [ok_bind', normalizeScalar_nonpos h1 h2 h3 ht]
+  rfl
+
+/-- **what a returned factor is**: whenever `normalize` returns, the source's band integral is
+positive and the factor is `factorValue` of the two band integrals (so the sums-level
+post-conditions above are about the factor the call returns) -/
+theorem factor_formula (E : Env K) (P : OverlapPar K) (self band : Spec K) (target : K)
+    (u : FluxUnit K) (wl : Option (List K)) (force : Bool) (area : Option K) (vega : Option (Synphot.Tree K))
+    (k : K) (s' : Spec K) (wn : Bool)
+    (h : normalizeFactor E P self band target u wl force area vega = .ok (k, s', wn)) :
+    ∃ sm bm total std, s'.model = .ok sm ∧ band.model = .ok bm ∧
+      normalizeIntegrals E P sm bm u wl area vega = .ok (total, std) ∧ 0 < total ∧
+      (u.isMag = true → 0 < std) ∧ k = factorValue E.T u target total std := by
+  obtain ⟨sm, bm, total, std, h1, h2, h3, hpos, hq, hk⟩ := normalizeScalar_ok (normalizeFactor_ok h).2
+  refine ⟨sm, bm, total, std, h1, h2, h3, hpos, ?_, hk⟩
+  intro hu
+  have := hq hu
+  by_contra hs
+  exact absurd this (not_lt.mpr (div_nonpos_of_nonneg_of_nonpos hpos.le (not_lt.mp hs)))
+
+/-- **positivity of the returned factor**: for the four magnitude units unconditionally, for count
+targets when the target is positive.  (For the linear density units the returned factor is
+`target · std / total` with `total > 0`, `factor_formula`; it is positive exactly when `target · std`
+is — `factor_pos_every_unit`; the code does not check `std`.) -/
+theorem returned_factor_pos (E : Env K) (hT : E.T.Lawful) (P : OverlapPar K) (self band : Spec K) (target : K)
+    (u : FluxUnit K) (wl : Option (List K)) (force : Bool) (area : Option K) (vega : Option (Synphot.Tree K))
+    (k : K) (s' : Spec K) (wn : Bool)
+    (h : normalizeFactor E P self band target u wl force area vega = .ok (k, s', wn))
+    (hu : u.isMag = true ∨ (u = .count ∧ 0 < target)) : 0 < k := by
+  obtain ⟨sm, bm, total, std, h1, h2, h3, hpos, hs, hk⟩ := factor_formula E P self band target u wl force area vega k s' wn h
+  rcases hu with hu | ⟨rfl, ht⟩
+  · rw [hk]; exact factorValue_pos hT u target total std hpos (hs hu) (Or.inl hu)
+  · rw [normalizeIntegrals_count E P sm bm .count wl area vega (Or.inl rfl)] at h3
+    obtain ⟨w, hw, h3⟩ := bind_ok h3
+    obtain ⟨yp, hyp, h3⟩ := bind_ok h3
+    obtain ⟨y, hy, h3⟩ := bind_ok h3
+    simp only [pure, Except.pure] at h3
+    injection h3 with h3; injection h3 with _ h3
+    rw [hk]; exact factorValue_pos hT .count target total std hpos (by rw [← h3]; exact one_pos) (Or.inr ht)
+
+/-! ### the post-condition on the model's own observer (`countrate`, `effstim`)
+
+`o` is any observation whose model is (source · k) × band — what `Observation(normalised, band)`
+builds (`mkObs`; `normalised = self' * k` has the model `self'.model | Scale(k)`) — with `k`, `self'`
+the factor and operand state *returned by the call*. -/
+
+/-- the pieces a returned count / OBMAG call computed -/
+theorem count_pieces (E : Env K) (P : OverlapPar K) (self band : Spec K) (target : K)
+    (u : FluxUnit K) (hu : u = .count ∨ u = .obmag) (wl : Option (List K)) (force : Bool) (area : Option K)
+    (vega : Option (Synphot.Tree K)) (k : K) (s' : Spec K) (wn : Bool)
+    (h : normalizeFactor E P self band target u wl force area vega = .ok (k, s', wn))
+    (sm bm : Synphot.Tree K) (hsm : s'.model = .ok sm) (hbm : band.model = .ok bm) :
+    ∃ w yp y, wavelengthsOr P.mergeThr (.bin .mul sm bm) wl = .ok w ∧
+      sampleTree E (.bin .mul sm bm) w = .ok yp ∧
+      convertFlux E.P E.T w yp .photlam .count area none = .ok y ∧ 0 < y.sum ∧
+      k = factorValue E.T u target y.sum 1 := by
+  obtain ⟨sm', bm', total, std, h1, h2, h3, hpos, _, hk⟩ := factor_formula E P self band target u wl force area vega k s' wn h
+  rw [hsm] at h1; injection h1 with h1; subst h1
+  rw [hbm] at h2; injection h2 with h2; subst h2
+  rw [normalizeIntegrals_count E P sm bm u wl area vega hu] at h3
+  obtain ⟨w, hw, h3⟩ := bind_ok h3
+  obtain ⟨yp, hyp, h3⟩ := bind_ok h3
+  obtain ⟨y, hy, h3⟩ := bind_ok h3
+  simp only [pure, Except.pure] at h3
+  injection h3 with h3; injection h3 with ht hs
+  subst ht; subst hs
+  exact ⟨w, yp, y, hw, hyp, hy, hpos, hk⟩
+
+/-- **count target, end to end**: for a positive target, the count rate of the normalised spectrum
+through the band — `Observation.countrate(area, binned=False, wavelengths)` = `effstim('count')` of the
+model — is the target, for explicit and implicit wavelengths, every `force`, every overlap verdict
+that lets the call return -/
+theorem normalize_count_model (E : Env K) (P : OverlapPar K) (self band : Spec K) (target : K)
+    (wl : Option (List K)) (force : Bool) (area : Option K) (vega : Option (Synphot.Tree K))
+    (k : K) (s' : Spec K) (wn : Bool) (atol rtol : K)
+    (h : normalizeFactor E P self band target .count wl force area vega = .ok (k, s', wn))
+    (ht : 0 < target)
+    (sm bm : Synphot.Tree K) (hsm : s'.model = .ok sm) (hbm : band.model = .ok bm)
+    (o : Obs K) (ho : o.model = .bin .mul (.scale sm k) bm) :
+    countrate E P.mergeThr atol rtol o area false wl none false = .ok target ∧
+    effstim E P.mergeThr atol rtol o .count wl area vega = .ok target := by
+  obtain ⟨w, yp, y, hw, hyp, hy, hpos, hk⟩ :=
+    count_pieces E P self band target .count (Or.inl rfl) wl force area vega k s' wn h sm bm hsm hbm
+  have hk' : k = target * (1 / y.sum) := by rw [hk]; simp [factorValue, FluxUnit.isMag]
+  have hsum : (y.map (k * ·)).sum = target := by
+    rw [sum_smul, hk']; have := ne_of_gt hpos; field_simp
+  have hc : countrate E P.mergeThr atol rtol o area false wl none false = .ok target := by
+    rw [countrate_unbinned, ho, wavelengthsOr_scaled, hw]
+    simp only [ok_bind', sampleTree_scaled_prod E sm bm k w yp hyp, convertFlux_count_smul E.P E.T k w yp y area hy,
+      hsum, validateTotalflux_of_pos ht]
+    rfl
+  exact ⟨hc, by simpa only [effstim] using hc⟩
+
+/-- **OBMAG target, end to end**: `effstim('obmag')` of the normalised spectrum through the band is the
+target, for every real target -/
+theorem normalize_obmag_model (E : Env K) (hT : E.T.Lawful) (P : OverlapPar K) (self band : Spec K) (target : K)
+    (wl : Option (List K)) (force : Bool) (area : Option K) (vega : Option (Synphot.Tree K))
+    (k : K) (s' : Spec K) (wn : Bool) (atol rtol : K)
+    (h : normalizeFactor E P self band target .obmag wl force area vega = .ok (k, s', wn))
+    (sm bm : Synphot.Tree K) (hsm : s'.model = .ok sm) (hbm : band.model = .ok bm)
+    (o : Obs K) (ho : o.model = .bin .mul (.scale sm k) bm) :
+    effstim E P.mergeThr atol rtol o .obmag wl area vega = .ok target := by
+  obtain ⟨w, yp, y, hw, hyp, hy, hpos, hk⟩ :=
+    count_pieces E P self band target .obmag (Or.inr rfl) wl force area vega k s' wn h sm bm hsm hbm
+  have hk' : k = ofMag E.T target * (1 / y.sum) := by
+    rw [hk]; exact factorValue_mag hT .obmag rfl _ _ _ hpos one_pos
+  have hsum : (y.map (k * ·)).sum = ofMag E.T target := by
+    rw [sum_smul, hk']; have := ne_of_gt hpos; field_simp
+  have hc : countrate E P.mergeThr atol rtol o area false wl none false = .ok (ofMag E.T target) := by
+    rw [countrate_unbinned, ho, wavelengthsOr_scaled, hw]
+    simp only [ok_bind', sampleTree_scaled_prod E sm bm k w yp hyp, convertFlux_count_smul E.P E.T k w yp y area hy,
+      hsum, validateTotalflux_of_pos (ofMag_pos hT target)]
+    rfl
+  simp only [effstim, hc, ok_bind']
+  exact toMag_ofMag hT target
+
+-- NOT PROVABLE ON CURRENT CODE (full statement): the same with `wavelengths` given — `effstim('vegamag')`
+-- integrates Vega × band on that product's own sampling set whatever `wavelengths` is, `normalize` on
+-- `wavelengths` (see the note before `normalize_jy_model_partial`).
+/-- **VEGAMAG target, end to end, implicit wavelengths**: the magnitude of the normalised spectrum
+relative to Vega is the target, for every real target and without any sign condition on the flux -/
+theorem normalize_vegamag_model_partial (E : Env K) (hT : E.T.Lawful) (P : OverlapPar K) (self band : Spec K) (target : K)
+    (force : Bool) (area area' : Option K) (vm : Synphot.Tree K)
+    (k : K) (s' : Spec K) (wn : Bool) (atol rtol : K)
+    (h : normalizeFactor E P self band target .vegamag none force area (some vm) = .ok (k, s', wn))
+    (sm bm : Synphot.Tree K) (hsm : s'.model = .ok sm) (hbm : band.model = .ok bm)
+    (o : Obs K) (ho : o.model = .bin .mul (.scale sm k) bm) (hob : o.band = band) :
+    effstim E P.mergeThr atol rtol o .vegamag none area' (some vm) = .ok target := by
+  obtain ⟨sm', bm', total, std, h1, h2, h3, hpos, hs, hk⟩ :=
+    factor_formula E P self band target .vegamag none force area (some vm) k s' wn h
+  rw [hsm] at h1; injection h1 with h1; subst h1
+  rw [hbm] at h2; injection h2 with h2; subst h2
+  rw [normalizeIntegrals_density E P sm bm .vegamag none area (some vm) (by intro h; cases h) (by intro h; cases h)] at h3
+  obtain ⟨w, hw, h3⟩ := bind_ok h3
+  obtain ⟨tot, htot, h3⟩ := bind_ok h3
+  obtain ⟨st, hst, h3⟩ := bind_ok h3
+  obtain ⟨wu, hwu, h3⟩ := bind_ok h3
+  obtain ⟨sd, hsd, h3⟩ := bind_ok h3
+  simp only [pure, Except.pure] at h3
+  injection h3 with h3; injection h3 with e1 e2
+  subst e1; subst e2
+  have hst' : st = vm := by
+    simp only [stdTreeOf, pure, Except.pure] at hst; injection hst with hst; exact hst.symm
+  subst hst'
+  have hspos : 0 < sd := hs rfl
+  have hk' : k = ofMag E.T target * (sd / tot) := by rw [hk]; exact factorValue_mag hT .vegamag rfl _ _ _ hpos hspos
+  have hm := ofMag_pos hT target
+  have hkpos : 0 < k := by rw [hk']; positivity
+  have hnum : k * tot = ofMag E.T target * sd := by rw [hk']; have := ne_of_gt hpos; field_simp
+  have hwu' : wavesetOrErr P.mergeThr (.bin .mul st bm) = .ok wu := hwu
+  simp only [effstim, hob, hbm, ho, wavelengthsOr_scaled, hw, ok_bind', integrateTrapz_scaled E sm bm k hkpos.le w tot htot,
+    hwu', hsd, hnum, validateTotalflux_of_pos (mul_pos hm hspos), validateTotalflux_of_pos hspos, pure, Except.pure]
+  congr 1
+  rw [hT.log10_mul _ _ hm hspos]
+  unfold ofMag
+  rw [hT.log10_pow10]
+  ring
+
+/-- the pieces a returned flux-density call computed, and what `effstim` then does with the normalised
+observation: for non-negative source × band and throughput, `total = |Σ F P|` on the source grid `w`,
+`std = |Σ flat(λ) P|` on the bandpass grid `xb` -/
+theorem density_setup (E : Env K) (hP : E.P.Pos) (P : OverlapPar K) (self band : Spec K) (target : K)
+    (u : FluxUnit K) (hu : u ≠ .count ∧ u ≠ .obmag ∧ u ≠ .vegamag)
+    (wl : Option (List K)) (force : Bool) (area : Option K) (vega : Option (Synphot.Tree K))
+    (k : K) (s' : Spec K) (wn : Bool) (atol rtol : K)
+    (h : normalizeFactor E P self band target u wl force area vega = .ok (k, s', wn))
+    (a0 : K) (u0 : FluxUnit K) (hstd : stdTreeOf E u vega = .ok (.leaf (.constFlux a0 u0)))
+    (hu0 : IsLinearDensity u0) (hu0p : u0.Pos) (ha0 : 0 ≤ a0)
+    (sm bm : Synphot.Tree K) (hsm : s'.model = .ok sm) (hbm : band.model = .ok bm)
+    (hsrc : ∀ x v, 0 < x → (Synphot.Tree.bin .mul sm bm).eval E x = .ok v → 0 ≤ v)
+    (hband : ∀ x v, 0 < x → bm.eval E x = .ok v → 0 ≤ v)
+    (o : Obs K) (ho : o.model = .bin .mul (.scale sm k) bm) (hob : o.band = band)
+    (area' : Option K) (vega' : Option (Synphot.Tree K)) :
+    ∃ (w yp xb yb : List K), wavelengthsOr P.mergeThr bm wl = .ok xb ∧ sampleTree E bm xb = .ok yb ∧
+      validateWavelengths xb = .ok () ∧ (∀ v ∈ yb, 0 ≤ v) ∧
+      0 < |trapz (w.zip yp)| ∧
+      (u.isMag = true → 0 < |trapz ((xb.zip yb).map fun p => (p.1, flatPhotlam E.P u0 a0 p.1 * p.2))|) ∧
+      k = factorValue E.T u target |trapz (w.zip yp)|
+        |trapz ((xb.zip yb).map fun p => (p.1, flatPhotlam E.P u0 a0 p.1 * p.2))| ∧
+      effstim E P.mergeThr atol rtol o u wl area' vega' = (do
+        let num := |k * (E.P.h * E.P.c) * trapz (w.zip yp)|
+        let den := |trapz ((xb.zip yb).map fun p => (p.1, p.1 * p.2))|
+        validateTotalflux num
+        validateTotalflux den
+        match u with
+        | .flam => pure (num / den)
+        | .stmag => toMag E.T (num / den / E.P.stZero)
+        | u' => do
+            let wp ← pivot E P.mergeThr bm none
+            convertOne E.P E.T (plainSamp wp) .flam u' (num / den)) := by
+  obtain ⟨sm', bm', total, std, h1, h2, h3, hpos, hs, hk⟩ :=
+    factor_formula E P self band target u wl force area vega k s' wn h
+  rw [hsm] at h1; injection h1 with h1; subst h1
+  rw [hbm] at h2; injection h2 with h2; subst h2
+  rw [normalizeIntegrals_density E P sm bm u wl area vega hu.1 hu.2.1] at h3
+  obtain ⟨w, hw, h3⟩ := bind_ok h3
+  obtain ⟨tot, htot, h3⟩ := bind_ok h3
+  obtain ⟨st, hst, h3⟩ := bind_ok h3
+  rw [hstd] at hst; injection hst with hst; subst hst
+  obtain ⟨wu, hwu, h3⟩ := bind_ok h3
+  obtain ⟨sd, hsd, h3⟩ := bind_ok h3
+  simp only [pure, Except.pure] at h3
+  injection h3 with h3; injection h3 with e1 e2
+  subst e1; subst e2
+  rw [wavelengthsOr_flat] at hwu
+  obtain ⟨yp, hv, hyp, htv⟩ := integrateTrapz_nonneg_src E _ w tot hsrc htot
+  obtain ⟨yb, hvb, hyb, hsv⟩ := integrateTrapz_flat' E hP u0 hu0 hu0p a0 ha0 bm wu sd hband hsd
+  refine ⟨w, yp, wu, yb, hwu, hyb, hvb, samples_nonneg E bm wu yb hvb hyb hband, ?_, ?_, ?_, ?_⟩
+  · rw [← htv]; exact hpos
+  · rw [← hsv]; exact hs
+  · rw [← htv, ← hsv]; exact hk
+  · exact effstim_scaled E P.mergeThr atol rtol o u hu wl area' vega' sm bm k wu yb w yp (by rw [hob]; exact hbm) ho
+      hwu hyb hw hv hyp
+
+/-- **FLAM target, end to end** (explicit or implicit wavelengths, any `force`): for non-negative
+source × band and throughput and a positive returned factor, `effstim('flam')` of the normalised
+spectrum through the band is the target -/
+theorem normalize_flam_model (E : Env K) (hP : E.P.Pos) (P : OverlapPar K) (self band : Spec K) (target : K)
+    (wl : Option (List K)) (force : Bool) (area : Option K) (vega : Option (Synphot.Tree K))
+    (k : K) (s' : Spec K) (wn : Bool) (atol rtol : K)
+    (h : normalizeFactor E P self band target .flam wl force area vega = .ok (k, s', wn)) (hk : 0 < k)
+    (sm bm : Synphot.Tree K) (hsm : s'.model = .ok sm) (hbm : band.model = .ok bm)
+    (hsrc : ∀ x v, 0 < x → (Synphot.Tree.bin .mul sm bm).eval E x = .ok v → 0 ≤ v)
+    (hband : ∀ x v, 0 < x → bm.eval E x = .ok v → 0 ≤ v)
+    (o : Obs K) (ho : o.model = .bin .mul (.scale sm k) bm) (hob : o.band = band)
+    (area' : Option K) (vega' : Option (Synphot.Tree K)) :
+    effstim E P.mergeThr atol rtol o .flam wl area' vega' = .ok target := by
+  obtain ⟨w, yp, xb, yb, hxb, hyb, hvb, hynn, htot, _, hkv, heff⟩ :=
+    density_setup E hP P self band target .flam (by refine ⟨?_, ?_, ?_⟩ <;> intro h <;> cases h)
+      wl force area vega k s' wn atol rtol h 1 .flam rfl trivial trivial zero_le_one sm bm hsm hbm hsrc hband o ho hob
+      area' vega'
+  have hh := hP.h; have hc := hP.c
+  have hhc : 0 < E.P.h * E.P.c := mul_pos hh hc
+  set tot := |trapz (w.zip yp)| with htotdef
+  set B := trapz ((xb.zip yb).map fun p => (p.1, p.1 * p.2)) with hB
+  have hsd : |trapz ((xb.zip yb).map fun p => (p.1, flatPhotlam E.P .flam 1 p.1 * p.2))| = |B| / (E.P.h * E.P.c) := by
+    rw [std_flam E.P (xb.zip yb) 1, abs_mul, abs_of_pos (div_pos one_pos hhc)]
+    show 1 / (E.P.h * E.P.c) * |B| = _
+    ring
+  rw [hsd] at hkv
+  have hkv' : k = target * (|B| / (E.P.h * E.P.c) / tot) := by rw [hkv]; simp [factorValue, FluxUnit.isMag]
+  have hBpos : 0 < |B| := by
+    rcases (abs_nonneg B).lt_or_eq with hlt | heq
+    · exact hlt
+    · rw [← heq] at hkv'; simp at hkv'; exact absurd hkv' (ne_of_gt hk)
+  have hnum : |k * (E.P.h * E.P.c) * trapz (w.zip yp)| = k * (E.P.h * E.P.c) * tot := by
+    rw [abs_mul, abs_of_pos (mul_pos hk hhc)]
+  rw [heff]
+  simp only [hnum, validateTotalflux_of_pos (mul_pos (mul_pos hk hhc) htot), validateTotalflux_of_pos hBpos, ok_bind',
+    pure, Except.pure]
+  congr 1
+  rw [hkv']
+  have := ne_of_gt htot; have := ne_of_gt hBpos; have := ne_of_gt hhc
+  field_simp
+
+/-- **STmag target, end to end** (explicit or implicit wavelengths): `effstim('STmag')` of the
+normalised spectrum is the target, for every real target -/
+theorem normalize_stmag_model (E : Env K) (hP : E.P.Pos) (hT : E.T.Lawful) (P : OverlapPar K) (self band : Spec K)
+    (target : K) (wl : Option (List K)) (force : Bool) (area : Option K) (vega : Option (Synphot.Tree K))
+    (k : K) (s' : Spec K) (wn : Bool) (atol rtol : K)
+    (h : normalizeFactor E P self band target .stmag wl force area vega = .ok (k, s', wn))
+    (sm bm : Synphot.Tree K) (hsm : s'.model = .ok sm) (hbm : band.model = .ok bm)
+    (hsrc : ∀ x v, 0 < x → (Synphot.Tree.bin .mul sm bm).eval E x = .ok v → 0 ≤ v)
+    (hband : ∀ x v, 0 < x → bm.eval E x = .ok v → 0 ≤ v)
+    (o : Obs K) (ho : o.model = .bin .mul (.scale sm k) bm) (hob : o.band = band)
+    (area' : Option K) (vega' : Option (Synphot.Tree K)) :
+    effstim E P.mergeThr atol rtol o .stmag wl area' vega' = .ok target := by
+  obtain ⟨w, yp, xb, yb, hxb, hyb, hvb, hynn, htot, hsdpos, hkv, heff⟩ :=
+    density_setup E hP P self band target .stmag (by refine ⟨?_, ?_, ?_⟩ <;> intro h <;> cases h)
+      wl force area vega k s' wn atol rtol h E.P.stZero .flam rfl trivial trivial hP.st.le sm bm hsm hbm hsrc hband o ho hob
+      area' vega'
+  have hh := hP.h; have hc := hP.c; have hz := hP.st
+  have hhc : 0 < E.P.h * E.P.c := mul_pos hh hc
+  set tot := |trapz (w.zip yp)| with htotdef
+  set B := trapz ((xb.zip yb).map fun p => (p.1, p.1 * p.2)) with hB
+  have hsd : |trapz ((xb.zip yb).map fun p => (p.1, flatPhotlam E.P .flam E.P.stZero p.1 * p.2))| =
+      E.P.stZero * |B| / (E.P.h * E.P.c) := by
+    rw [std_flam E.P (xb.zip yb) E.P.stZero, abs_mul, abs_of_pos (div_pos hz hhc)]
+    show E.P.stZero / (E.P.h * E.P.c) * |B| = _
+    ring
+  have hsdpos' := hsdpos rfl
+  rw [hsd] at hkv hsdpos'
+  have hBpos : 0 < |B| := by
+    rcases (abs_nonneg B).lt_or_eq with hlt | heq
+    · exact hlt
+    · rw [← heq] at hsdpos'; simp at hsdpos'
+  have hkv' : k = ofMag E.T target * (E.P.stZero * |B| / (E.P.h * E.P.c) / tot) := by
+    rw [hkv]; exact factorValue_mag hT .stmag rfl _ _ _ htot hsdpos'
+  have hm := ofMag_pos hT target
+  have hk : 0 < k := by rw [hkv']; positivity
+  have hnum : |k * (E.P.h * E.P.c) * trapz (w.zip yp)| = k * (E.P.h * E.P.c) * tot := by
+    rw [abs_mul, abs_of_pos (mul_pos hk hhc)]
+  rw [heff]
+  simp only [hnum, validateTotalflux_of_pos (mul_pos (mul_pos hk hhc) htot), validateTotalflux_of_pos hBpos, ok_bind']
+  have e : k * (E.P.h * E.P.c) * tot / |B| / E.P.stZero = ofMag E.T target := by
+    rw [hkv']
+    have := ne_of_gt htot; have := ne_of_gt hBpos; have := ne_of_gt hhc; have := ne_of_gt hz
+    field_simp
+  rw [toMag_congr e, toMag_ofMag hT]
+
+/-- a positive pivot wavelength means both `∫P/λ` and `∫λP` are non-zero on the bandpass grid, and the
+pivot squares to their quotient -/
+theorem pivot_facts (E : Env K) (hT : E.T.Lawful) (thr : K) (bm : Synphot.Tree K) (xb yb : List K) (wp : K)
+    (hxb : wavelengthsOr thr bm none = .ok xb) (hyb : sampleTree E bm xb = .ok yb)
+    (hpiv : pivot E thr bm none = .ok wp) (hwp : 0 < wp) :
+    trapz ((xb.zip yb).map fun p => (p.1, p.2 / p.1)) ≠ 0 ∧
+    trapz ((xb.zip yb).map fun p => (p.1, p.1 * p.2)) ≠ 0 ∧
+    wp * wp = |trapz ((xb.zip yb).map fun p => (p.1, p.1 * p.2))| /
+      |trapz ((xb.zip yb).map fun p => (p.1, p.2 / p.1))| := by
+  rw [pivot_value E thr bm xb yb hxb hyb] at hpiv
+  injection hpiv with hpiv
+  set A := trapz ((xb.zip yb).map fun p => (p.1, p.2 / p.1))
+  set B := trapz ((xb.zip yb).map fun p => (p.1, p.1 * p.2))
+  have hA : A ≠ 0 := by
+    intro hA; rw [if_pos hA] at hpiv; rw [← hpiv] at hwp; exact lt_irrefl _ hwp
+  rw [if_neg hA] at hpiv
+  have hsq : wp * wp = |B / A| := by rw [← hpiv]; exact hT.sqrt_mul_self _ (abs_nonneg _)
+  have hB : B ≠ 0 := by
+    intro hB
+    rw [hB, zero_div, abs_zero] at hsq
+    exact absurd (mul_self_eq_zero.mp hsq) (ne_of_gt hwp)
+  exact ⟨hA, hB, by rw [hsq, abs_div]⟩
+
+/-- **Jy / prefixed-Jy target, end to end** (implicit wavelengths — `effstim` takes the pivot on the
+bandpass's own grid whatever `wavelengths` is): for a positive target, non-negative source × band and
+throughput, and a bandpass with a positive pivot wavelength, `effstim` in the target's unit is the target -/
+theorem normalize_jy_of_pivot (E : Env K) (hP : E.P.Pos) (hT : E.T.Lawful) (P : OverlapPar K) (self band : Spec K)
+    (s target : K) (hs : 0 < s) (ht : 0 < target)
+    (force : Bool) (area : Option K) (vega : Option (Synphot.Tree K))
+    (k : K) (s' : Spec K) (wn : Bool) (atol rtol : K)
+    (h : normalizeFactor E P self band target (.jy s) none force area vega = .ok (k, s', wn))
+    (sm bm : Synphot.Tree K) (hsm : s'.model = .ok sm) (hbm : band.model = .ok bm)
+    (hsrc : ∀ x v, 0 < x → (Synphot.Tree.bin .mul sm bm).eval E x = .ok v → 0 ≤ v)
+    (hband : ∀ x v, 0 < x → bm.eval E x = .ok v → 0 ≤ v)
+    (wp : K) (hpiv : pivot E P.mergeThr bm none = .ok wp) (hwp : 0 < wp)
+    (o : Obs K) (ho : o.model = .bin .mul (.scale sm k) bm) (hob : o.band = band)
+    (area' : Option K) (vega' : Option (Synphot.Tree K)) :
+    effstim E P.mergeThr atol rtol o (.jy s) none area' vega' = .ok target := by
+  obtain ⟨w, yp, xb, yb, hxb, hyb, hvb, hynn, htot, _, hkv, heff⟩ :=
+    density_setup E hP P self band target (.jy s) (by refine ⟨?_, ?_, ?_⟩ <;> intro h <;> cases h)
+      none force area vega k s' wn atol rtol h 1 (.jy s) rfl trivial hs zero_le_one sm bm hsm hbm hsrc hband o ho hob
+      area' vega'
+  obtain ⟨hA, hB, hsq⟩ := pivot_facts E hT P.mergeThr bm xb yb wp hxb hyb hpiv hwp
+  have hh := hP.h; have hc := hP.c; have hj := hP.jy
+  have hhc : 0 < E.P.h * E.P.c := mul_pos hh hc
+  set tot := |trapz (w.zip yp)| with htotdef
+  set B := trapz ((xb.zip yb).map fun p => (p.1, p.1 * p.2)) with hBdef
+  set A := trapz ((xb.zip yb).map fun p => (p.1, p.2 / p.1)) with hAdef
+  have hposb : ∀ p ∈ xb.zip yb, p.1 ≠ 0 := fun p hp =>
+    ne_of_gt (((validate_ok_iff xb).mp hvb).1 p.1 (List.of_mem_zip hp).1)
+  have hsd : |trapz ((xb.zip yb).map fun p => (p.1, flatPhotlam E.P (.jy s) 1 p.1 * p.2))| =
+      s * E.P.jyFnu * E.P.c / (E.P.h * E.P.c) * |A| := by
+    rw [std_jy E.P (xb.zip yb) s 1 hposb, abs_mul, one_mul, abs_of_pos (by positivity)]
+    rfl
+  rw [hsd] at hkv
+  have hkv' : k = target * (s * E.P.jyFnu * E.P.c / (E.P.h * E.P.c) * |A| / tot) := by
+    rw [hkv]; simp [factorValue, FluxUnit.isMag]
+  have hApos : 0 < |A| := abs_pos.mpr hA
+  have hBpos : 0 < |B| := abs_pos.mpr hB
+  have hk : 0 < k := by rw [hkv']; positivity
+  have hnum : |k * (E.P.h * E.P.c) * trapz (w.zip yp)| = k * (E.P.h * E.P.c) * tot := by
+    rw [abs_mul, abs_of_pos (mul_pos hk hhc)]
+  rw [heff]
+  simp only [hnum, validateTotalflux_of_pos (mul_pos (mul_pos hk hhc) htot), validateTotalflux_of_pos hBpos, ok_bind',
+    hpiv, convert_flam_jy E.P E.T hP s wp _ hwp]
+  congr 1
+  rw [hsq, hkv']
+  have := ne_of_gt htot; have := ne_of_gt hBpos; have := ne_of_gt hh; have := ne_of_gt hc
+  have := ne_of_gt hApos; have := ne_of_gt hs; have := ne_of_gt hj
+  field_simp
+
+/-- **FNU target, end to end** (implicit wavelengths) -/
+theorem normalize_fnu_of_pivot (E : Env K) (hP : E.P.Pos) (hT : E.T.Lawful) (P : OverlapPar K) (self band : Spec K)
+    (target : K) (ht : 0 < target)
+    (force : Bool) (area : Option K) (vega : Option (Synphot.Tree K))
+    (k : K) (s' : Spec K) (wn : Bool) (atol rtol : K)
+    (h : normalizeFactor E P self band target .fnu none force area vega = .ok (k, s', wn))
+    (sm bm : Synphot.Tree K) (hsm : s'.model = .ok sm) (hbm : band.model = .ok bm)
+    (hsrc : ∀ x v, 0 < x → (Synphot.Tree.bin .mul sm bm).eval E x = .ok v → 0 ≤ v)
+    (hband : ∀ x v, 0 < x → bm.eval E x = .ok v → 0 ≤ v)
+    (wp : K) (hpiv : pivot E P.mergeThr bm none = .ok wp) (hwp : 0 < wp)
+    (o : Obs K) (ho : o.model = .bin .mul (.scale sm k) bm) (hob : o.band = band)
+    (area' : Option K) (vega' : Option (Synphot.Tree K)) :
+    effstim E P.mergeThr atol rtol o .fnu none area' vega' = .ok target := by
+  obtain ⟨w, yp, xb, yb, hxb, hyb, hvb, hynn, htot, _, hkv, heff⟩ :=
+    density_setup E hP P self band target .fnu (by refine ⟨?_, ?_, ?_⟩ <;> intro h <;> cases h)
+      none force area vega k s' wn atol rtol h 1 .fnu rfl trivial trivial zero_le_one sm bm hsm hbm hsrc hband o ho hob
+      area' vega'
+  obtain ⟨hA, hB, hsq⟩ := pivot_facts E hT P.mergeThr bm xb yb wp hxb hyb hpiv hwp
+  have hh := hP.h; have hc := hP.c
+  have hhc : 0 < E.P.h * E.P.c := mul_pos hh hc
+  set tot := |trapz (w.zip yp)| with htotdef
+  set B := trapz ((xb.zip yb).map fun p => (p.1, p.1 * p.2)) with hBdef
+  set A := trapz ((xb.zip yb).map fun p => (p.1, p.2 / p.1)) with hAdef
+  have hposb : ∀ p ∈ xb.zip yb, p.1 ≠ 0 := fun p hp =>
+    ne_of_gt (((validate_ok_iff xb).mp hvb).1 p.1 (List.of_mem_zip hp).1)
+  have hsd : |trapz ((xb.zip yb).map fun p => (p.1, flatPhotlam E.P .fnu 1 p.1 * p.2))| =
+      E.P.c / (E.P.h * E.P.c) * |A| := by
+    rw [std_fnu E.P (xb.zip yb) 1 hposb, abs_mul, one_mul, abs_of_pos (by positivity)]
+    rfl
+  rw [hsd] at hkv
+  have hkv' : k = target * (E.P.c / (E.P.h * E.P.c) * |A| / tot) := by
+    rw [hkv]; simp [factorValue, FluxUnit.isMag]
+  have hApos : 0 < |A| := abs_pos.mpr hA
+  have hBpos : 0 < |B| := abs_pos.mpr hB
+  have hk : 0 < k := by rw [hkv']; positivity
+  have hnum : |k * (E.P.h * E.P.c) * trapz (w.zip yp)| = k * (E.P.h * E.P.c) * tot := by
+    rw [abs_mul, abs_of_pos (mul_pos hk hhc)]
+  rw [heff]
+  simp only [hnum, validateTotalflux_of_pos (mul_pos (mul_pos hk hhc) htot), validateTotalflux_of_pos hBpos, ok_bind',
+    hpiv, convert_flam_fnu E.P E.T hP wp _ hwp]
+  congr 1
+  rw [hsq, hkv']
+  have := ne_of_gt htot; have := ne_of_gt hBpos; have := ne_of_gt hh; have := ne_of_gt hc
+  have := ne_of_gt hApos
+  field_simp
+
+/-- **ABmag target, end to end** (implicit wavelengths), for every real target -/
+theorem normalize_abmag_of_pivot (E : Env K) (hP : E.P.Pos) (hT : E.T.Lawful) (P : OverlapPar K) (self band : Spec K)
+    (target : K) (force : Bool) (area : Option K) (vega : Option (Synphot.Tree K))
+    (k : K) (s' : Spec K) (wn : Bool) (atol rtol : K)
+    (h : normalizeFactor E P self band target .abmag none force area vega = .ok (k, s', wn))
+    (sm bm : Synphot.Tree K) (hsm : s'.model = .ok sm) (hbm : band.model = .ok bm)
+    (hsrc : ∀ x v, 0 < x → (Synphot.Tree.bin .mul sm bm).eval E x = .ok v → 0 ≤ v)
+    (hband : ∀ x v, 0 < x → bm.eval E x = .ok v → 0 ≤ v)
+    (wp : K) (hpiv : pivot E P.mergeThr bm none = .ok wp) (hwp : 0 < wp)
+    (o : Obs K) (ho : o.model = .bin .mul (.scale sm k) bm) (hob : o.band = band)
+    (area' : Option K) (vega' : Option (Synphot.Tree K)) :
+    effstim E P.mergeThr atol rtol o .abmag none area' vega' = .ok target := by
+  obtain ⟨w, yp, xb, yb, hxb, hyb, hvb, hynn, htot, hsdpos, hkv, heff⟩ :=
+    density_setup E hP P self band target .abmag (by refine ⟨?_, ?_, ?_⟩ <;> intro h <;> cases h)
+      none force area vega k s' wn atol rtol h E.P.abZero .fnu rfl trivial trivial hP.ab.le sm bm hsm hbm hsrc hband o ho hob
+      area' vega'
+  obtain ⟨hA, hB, hsq⟩ := pivot_facts E hT P.mergeThr bm xb yb wp hxb hyb hpiv hwp
+  have hh := hP.h; have hc := hP.c; have hz := hP.ab
+  have hhc : 0 < E.P.h * E.P.c := mul_pos hh hc
+  set tot := |trapz (w.zip yp)| with htotdef
+  set B := trapz ((xb.zip yb).map fun p => (p.1, p.1 * p.2)) with hBdef
+  set A := trapz ((xb.zip yb).map fun p => (p.1, p.2 / p.1)) with hAdef
+  have hposb : ∀ p ∈ xb.zip yb, p.1 ≠ 0 := fun p hp =>
+    ne_of_gt (((validate_ok_iff xb).mp hvb).1 p.1 (List.of_mem_zip hp).1)
+  have hsd : |trapz ((xb.zip yb).map fun p => (p.1, flatPhotlam E.P .fnu E.P.abZero p.1 * p.2))| =
+      E.P.abZero * E.P.c / (E.P.h * E.P.c) * |A| := by
+    rw [std_fnu E.P (xb.zip yb) E.P.abZero hposb, abs_mul, abs_of_pos (by positivity)]
+    rfl
+  have hsdpos' := hsdpos rfl
+  rw [hsd] at hkv hsdpos'
+  have hkv' : k = ofMag E.T target * (E.P.abZero * E.P.c / (E.P.h * E.P.c) * |A| / tot) := by
+    rw [hkv]; exact factorValue_mag hT .abmag rfl _ _ _ htot hsdpos'
+  have hm := ofMag_pos hT target
+  have hApos : 0 < |A| := abs_pos.mpr hA
+  have hBpos : 0 < |B| := abs_pos.mpr hB
+  have hk : 0 < k := by rw [hkv']; positivity
+  have hnum : |k * (E.P.h * E.P.c) * trapz (w.zip yp)| = k * (E.P.h * E.P.c) * tot := by
+    rw [abs_mul, abs_of_pos (mul_pos hk hhc)]
+  rw [heff]
+  simp only [hnum, validateTotalflux_of_pos (mul_pos (mul_pos hk hhc) htot), validateTotalflux_of_pos hBpos, ok_bind',
+    hpiv, convert_flam_abmag E.P E.T hP wp _ hwp]
+  have e : k * (E.P.h * E.P.c) * tot / |B| * (wp * wp) / E.P.c / E.P.abZero = ofMag E.T target := by
+    rw [hsq, hkv']
+    have := ne_of_gt htot; have := ne_of_gt hBpos; have := ne_of_gt hh; have := ne_of_gt hc
+    have := ne_of_gt hApos; have := ne_of_gt hz
+    field_simp
+  rw [toMag_congr e, toMag_ofMag hT]
+
+/-! The three pivot-converted units without the pivot hypothesis: for a non-negative bandpass on its
+(validated, hence strictly monotone and positive) grid `∫P/λ ≠ 0` forces `∫λP ≠ 0`
+(`band_B_ne_zero`), so the pivot is positive as soon as the standard spectrum's band integral is.
+
+-- NOT PROVABLE ON CURRENT CODE (full statement): the same three theorems, and the VEGAMAG one, with
+-- `wavelengths` given (`wl = some w` in both `normalizeFactor` and `effstim`).  `normalize` integrates
+-- the standard spectrum × band on `w`, but `Observation.effstim` converts its FLAM value at
+-- `self.bandpass.pivot()` — the pivot on the bandpass's *own* sampling set — and, for VEGAMAG, integrates
+-- Vega × band on that product's own sampling set (observation.py:478-481, 507-508), so the two calls use
+-- different grids for the same integral.  Counterexample on the real code: a bandpass tabulated at
+-- 2000 and 4000 Å (throughput 1), a flat source, `normalize(3 FNU, band, wavelengths=[2000, 3000, 4000])`
+-- then `Observation(…).effstim(FNU, wavelengths=[2000, 3000, 4000])` returns 2.8333… FNU (ABmag target 20:
+-- 20.062), whereas FLAM and STmag return the target exactly (`normalize_flam_model`,
+-- `normalize_stmag_model` hold for explicit wavelengths).  What is missing is on the code's side
+-- (`pivot(wavelengths=wavelengths)`), not in the proof. -/
+
+/-- **Jy / prefixed-Jy target, end to end, implicit wavelengths**: for non-negative source × band and
+throughput and a positive returned factor, `effstim` in the target's unit is the target -/
+theorem normalize_jy_model_partial (E : Env K) (hP : E.P.Pos) (hT : E.T.Lawful) (P : OverlapPar K) (self band : Spec K)
+    (s target : K) (hs : 0 < s)
+    (force : Bool) (area : Option K) (vega : Option (Synphot.Tree K))
+    (k : K) (s' : Spec K) (wn : Bool) (atol rtol : K)
+    (h : normalizeFactor E P self band target (.jy s) none force area vega = .ok (k, s', wn)) (hk : 0 < k)
+    (sm bm : Synphot.Tree K) (hsm : s'.model = .ok sm) (hbm : band.model = .ok bm)
+    (hsrc : ∀ x v, 0 < x → (Synphot.Tree.bin .mul sm bm).eval E x = .ok v → 0 ≤ v)
+    (hband : ∀ x v, 0 < x → bm.eval E x = .ok v → 0 ≤ v)
+    (o : Obs K) (ho : o.model = .bin .mul (.scale sm k) bm) (hob : o.band = band)
+    (area' : Option K) (vega' : Option (Synphot.Tree K)) :
+    effstim E P.mergeThr atol rtol o (.jy s) none area' vega' = .ok target := by
+  obtain ⟨w, yp, xb, yb, hxb, hyb, hvb, hynn, htot, _, hkv, _⟩ :=
+    density_setup E hP P self band target (.jy s) (by refine ⟨?_, ?_, ?_⟩ <;> intro h <;> cases h)
+      none force area vega k s' wn atol rtol h 1 (.jy s) rfl trivial hs zero_le_one sm bm hsm hbm hsrc hband o ho hob
+      area' vega'
+  have hposb : ∀ p ∈ xb.zip yb, p.1 ≠ 0 := fun p hp =>
+    ne_of_gt (((validate_ok_iff xb).mp hvb).1 p.1 (List.of_mem_zip hp).1)
+  rw [std_jy E.P (xb.zip yb) s 1 hposb] at hkv
+  have hkv' : k = target * (|1 * s * E.P.jyFnu * E.P.c / (E.P.h * E.P.c) * trapz (oLam (xb.zip yb))| /
+      |trapz (w.zip yp)|) := by rw [hkv]; simp [factorValue, FluxUnit.isMag]
+  have hA : trapz ((xb.zip yb).map fun p => (p.1, p.2 / p.1)) ≠ 0 := by
+    intro hA
+    have : trapz (oLam (xb.zip yb)) = 0 := hA
+    rw [this] at hkv'; simp at hkv'; exact absurd hkv' (ne_of_gt hk)
+  have ht : 0 < target := by
+    have h1 : 0 ≤ |1 * s * E.P.jyFnu * E.P.c / (E.P.h * E.P.c) * trapz (oLam (xb.zip yb))| / |trapz (w.zip yp)| :=
+      div_nonneg (abs_nonneg _) htot.le
+    rw [hkv'] at hk
+    by_contra hneg
+    exact absurd hk (not_lt.mpr (mul_nonpos_of_nonpos_of_nonneg (not_lt.mp hneg) h1))
+  obtain ⟨wp, hpiv, hwp⟩ := pivot_pos_of_band E hT P.mergeThr bm xb yb hxb hvb hyb hynn hA
+  exact normalize_jy_of_pivot E hP hT P self band s target hs ht force area vega k s' wn atol rtol h sm bm hsm hbm
+    hsrc hband wp hpiv hwp o ho hob area' vega'
+
+/-- **FNU target, end to end, implicit wavelengths** -/
+theorem normalize_fnu_model_partial (E : Env K) (hP : E.P.Pos) (hT : E.T.Lawful) (P : OverlapPar K) (self band : Spec K)
+    (target : K) (force : Bool) (area : Option K) (vega : Option (Synphot.Tree K))
+    (k : K) (s' : Spec K) (wn : Bool) (atol rtol : K)
+    (h : normalizeFactor E P self band target .fnu none force area vega = .ok (k, s', wn)) (hk : 0 < k)
+    (sm bm : Synphot.Tree K) (hsm : s'.model = .ok sm) (hbm : band.model = .ok bm)
+    (hsrc : ∀ x v, 0 < x → (Synphot.Tree.bin .mul sm bm).eval E x = .ok v → 0 ≤ v)
+    (hband : ∀ x v, 0 < x → bm.eval E x = .ok v → 0 ≤ v)
+    (o : Obs K) (ho : o.model = .bin .mul (.scale sm k) bm) (hob : o.band = band)
+    (area' : Option K) (vega' : Option (Synphot.Tree K)) :
+    effstim E P.mergeThr atol rtol o .fnu none area' vega' = .ok target := by
+  obtain ⟨w, yp, xb, yb, hxb, hyb, hvb, hynn, htot, _, hkv, _⟩ :=
+    density_setup E hP P self band target .fnu (by refine ⟨?_, ?_, ?_⟩ <;> intro h <;> cases h)
+      none force area vega k s' wn atol rtol h 1 .fnu rfl trivial trivial zero_le_one sm bm hsm hbm hsrc hband o ho hob
+      area' vega'
+  have hposb : ∀ p ∈ xb.zip yb, p.1 ≠ 0 := fun p hp =>
+    ne_of_gt (((validate_ok_iff xb).mp hvb).1 p.1 (List.of_mem_zip hp).1)
+  rw [std_fnu E.P (xb.zip yb) 1 hposb] at hkv
+  have hkv' : k = target * (|1 * E.P.c / (E.P.h * E.P.c) * trapz (oLam (xb.zip yb))| /
+      |trapz (w.zip yp)|) := by rw [hkv]; simp [factorValue, FluxUnit.isMag]
+  have hA : trapz ((xb.zip yb).map fun p => (p.1, p.2 / p.1)) ≠ 0 := by
+    intro hA
+    have : trapz (oLam (xb.zip yb)) = 0 := hA
+    rw [this] at hkv'; simp at hkv'; exact absurd hkv' (ne_of_gt hk)
+  have ht : 0 < target := by
+    have h1 : 0 ≤ |1 * E.P.c / (E.P.h * E.P.c) * trapz (oLam (xb.zip yb))| / |trapz (w.zip yp)| :=
+      div_nonneg (abs_nonneg _) htot.le
+    rw [hkv'] at hk
+    by_contra hneg
+    exact absurd hk (not_lt.mpr (mul_nonpos_of_nonpos_of_nonneg (not_lt.mp hneg) h1))
+  obtain ⟨wp, hpiv, hwp⟩ := pivot_pos_of_band E hT P.mergeThr bm xb yb hxb hvb hyb hynn hA
+  exact normalize_fnu_of_pivot E hP hT P self band target ht force area vega k s' wn atol rtol h sm bm hsm hbm
+    hsrc hband wp hpiv hwp o ho hob area' vega'
+
+/-- **ABmag target, end to end, implicit wavelengths**, for every real target; no hypothesis beyond
+non-negative source × band and throughput (the magnitude branch already refuses `std ≤ 0`) -/
+theorem normalize_abmag_model_partial (E : Env K) (hP : E.P.Pos) (hT : E.T.Lawful) (P : OverlapPar K) (self band : Spec K)
+    (target : K) (force : Bool) (area : Option K) (vega : Option (Synphot.Tree K))
+    (k : K) (s' : Spec K) (wn : Bool) (atol rtol : K)
+    (h : normalizeFactor E P self band target .abmag none force area vega = .ok (k, s', wn))
+    (sm bm : Synphot.Tree K) (hsm : s'.model = .ok sm) (hbm : band.model = .ok bm)
+    (hsrc : ∀ x v, 0 < x → (Synphot.Tree.bin .mul sm bm).eval E x = .ok v → 0 ≤ v)
+    (hband : ∀ x v, 0 < x → bm.eval E x = .ok v → 0 ≤ v)
+    (o : Obs K) (ho : o.model = .bin .mul (.scale sm k) bm) (hob : o.band = band)
+    (area' : Option K) (vega' : Option (Synphot.Tree K)) :
+    effstim E P.mergeThr atol rtol o .abmag none area' vega' = .ok target := by
+  obtain ⟨w, yp, xb, yb, hxb, hyb, hvb, hynn, htot, hsdpos, hkv, _⟩ :=
+    density_setup E hP P self band target .abmag (by refine ⟨?_, ?_, ?_⟩ <;> intro h <;> cases h)
+      none force area vega k s' wn atol rtol h E.P.abZero .fnu rfl trivial trivial hP.ab.le sm bm hsm hbm hsrc hband o ho hob
+      area' vega'
+  have hposb : ∀ p ∈ xb.zip yb, p.1 ≠ 0 := fun p hp =>
+    ne_of_gt (((validate_ok_iff xb).mp hvb).1 p.1 (List.of_mem_zip hp).1)
+  have hsd := hsdpos rfl
+  rw [std_fnu E.P (xb.zip yb) E.P.abZero hposb] at hsd
+  have hA : trapz ((xb.zip yb).map fun p => (p.1, p.2 / p.1)) ≠ 0 := by
+    intro hA
+    have : trapz (oLam (xb.zip yb)) = 0 := hA
+    rw [this] at hsd; simp at hsd
+  obtain ⟨wp, hpiv, hwp⟩ := pivot_pos_of_band E hT P.mergeThr bm xb yb hxb hvb hyb hynn hA
+  exact normalize_abmag_of_pivot E hP hT P self band target force area vega k s' wn atol rtol h sm bm hsm hbm
+    hsrc hband wp hpiv hwp o ho hob area' vega'
+
+/-- **photon-flux-density targets, end to end** (PHOTLAM, PHOTNU — and every linear density unit; explicit
+or implicit wavelengths; no sign condition on the flux): the normalised spectrum × band and the spectrum
+flat at the target × band have the same integral `integrate(wavelengths, 'trapezoid')` — the same
+photon rate through the band -/
+theorem normalize_photon_rate_model (E : Env K) (P : OverlapPar K) (self band : Spec K) (target : K)
+    (u : FluxUnit K) (hu : IsLinearDensity u) (ht : 0 ≤ target)
+    (wl : Option (List K)) (force : Bool) (area : Option K) (vega : Option (Synphot.Tree K))
+    (k : K) (s' : Spec K) (wn : Bool)
+    (h : normalizeFactor E P self band target u wl force area vega = .ok (k, s', wn))
+    (sm bm : Synphot.Tree K) (hsm : s'.model = .ok sm) (hbm : band.model = .ok bm) :
+    ∃ w xb r, wavelengthsOr P.mergeThr (.bin .mul (.scale sm k) bm) wl = .ok w ∧
+      wavelengthsOr P.mergeThr (.bin .mul (.leaf (.constFlux target u)) bm) wl = .ok xb ∧
+      integrateTrapz E (.bin .mul (.scale sm k) bm) w = .ok r ∧
+      integrateTrapz E (.bin .mul (.leaf (.constFlux target u)) bm) xb = .ok r := by
+  obtain ⟨sm', bm', total, std, h1, h2, h3, hpos, _, hk⟩ :=
+    factor_formula E P self band target u wl force area vega k s' wn h
+  rw [hsm] at h1; injection h1 with h1; subst h1
+  rw [hbm] at h2; injection h2 with h2; subst h2
+  have hnc : u ≠ .count ∧ u ≠ .obmag := by
+    constructor <;> (intro hc; rw [hc] at hu; exact hu)
+  rw [normalizeIntegrals_density E P sm bm u wl area vega hnc.1 hnc.2] at h3
+  obtain ⟨w, hw, h3⟩ := bind_ok h3
+  obtain ⟨tot, htot, h3⟩ := bind_ok h3
+  obtain ⟨st, hst, h3⟩ := bind_ok h3
+  have hst' : st = .leaf (.constFlux 1 u) := by
+    cases u <;> first | (simp only [stdTreeOf, pure, Except.pure] at hst; injection hst with hst; exact hst.symm) | exact absurd hu (by simp [IsLinearDensity])
+  subst hst'
+  obtain ⟨wu, hwu, h3⟩ := bind_ok h3
+  obtain ⟨sd, hsd, h3⟩ := bind_ok h3
+  simp only [pure, Except.pure] at h3
+  injection h3 with h3; injection h3 with e1 e2
+  subst e1; subst e2
+  obtain ⟨ys, _, _, hsdv⟩ := integrateTrapz_ok hsd
+  have hsdnn : 0 ≤ sd := by rw [hsdv]; exact abs_nonneg _
+  have hk' : k = target * (sd / tot) := by
+    rw [hk]
+    cases u <;> first | (simp [factorValue, FluxUnit.isMag]; done) | exact absurd hu (by simp [IsLinearDensity])
+  have hknn : 0 ≤ k := by rw [hk']; exact mul_nonneg ht (div_nonneg hsdnn hpos.le)
+  refine ⟨w, wu, k * tot, ?_, ?_, integrateTrapz_scaled E sm bm k hknn w tot htot, ?_⟩
+  · rw [wavelengthsOr_scaled]; exact hw
+  · rw [wavelengthsOr_flat] at hwu ⊢; exact hwu
+  · have := integrateTrapz_smul_of_eval E _ _ target ht (eval_flat_amp E u hu target bm) wu sd hsd
+    rw [this]; congr 1; rw [hk']; have := ne_of_gt hpos; field_simp
+
+/-! ### the operand after the call; the call returns when its pieces succeed -/
+
+/-- whatever the unit, target and `force`: the operand comes back either untouched (no warning) or
+switched to extrapolation (with the warning) — nothing else happens to it -/
+theorem operand_after_call (E : Env K) (P : OverlapPar K) (self band : Spec K) (target : K)
+    (u : FluxUnit K) (wl : Option (List K)) (force : Bool) (area : Option K) (vega : Option (Synphot.Tree K))
+    (k : K) (s' : Spec K) (wn : Bool)
+    (h : normalizeFactor E P self band target u wl force area vega = .ok (k, s', wn)) :
+    (s' = self ∧ wn = false) ∨ (s' = (self.forceExtrap).1 ∧ wn = true) := by
+  have hadm := (normalizeFactor_ok h).1
+  unfold normalizeAdmit at hadm
+  by_cases hb : band.kind = .bandpass
+  · simp only [hb, ne_eq, not_true_eq_false, if_false, ok_bind', pure_bind] at hadm
+    obtain ⟨stat, hst, hadm⟩ := bind_ok hadm
+    cases stat <;> cases force <;> simp only [pure, Except.pure, if_true, if_false, Bool.false_eq_true] at hadm <;>
+      first
+        | (injection hadm with hadm; injection hadm with h1 h2; exact Or.inl ⟨h1.symm, h2.symm⟩)
+        | (injection hadm with hadm; injection hadm with h1 h2; exact Or.inr ⟨h1.symm, h2.symm⟩)
+        | cases hadm
+  · simp only [hb, ne_eq, not_false_eq_true, if_true] at hadm
+    cases hadm
+
+/-- the switch to extrapolation touches nothing but the fill rule of a tabulated model: class,
+redshift state, points, values and `keep_neg` are kept, and a spectrum whose model is not a table is
+returned as it is -/
+theorem extrapolation_switch (s : Spec K) :
+    (s.forceExtrap).1.kind = s.kind ∧ (s.forceExtrap).1.zs = s.zs ∧
+    ((s.forceExtrap).1 = s ∨
+      (∃ t, s.tree = .leaf (.table t) ∧ (s.forceExtrap).1.tree = .leaf (.table t.forceExtrap)) ∨
+      (∃ t, s.tree = .leaf (.extinction t) ∧ (s.forceExtrap).1.tree = .leaf (.extinction t.forceExtrap))) := by
+  unfold Spec.forceExtrap
+  split
+  · rename_i t ht; exact ⟨rfl, rfl, Or.inr (Or.inl ⟨t, ht, rfl⟩)⟩
+  · rename_i t ht; exact ⟨rfl, rfl, Or.inr (Or.inr ⟨t, ht, rfl⟩)⟩
+  · exact ⟨rfl, rfl, Or.inl rfl⟩
+
+/-- … and inside the table's own range the extrapolating table takes the same values -/
+theorem extrapolation_switch_inside (t : Table K) (x : K) (h1 : t.pts.headD 0 ≤ x) (h2 : x ≤ t.pts.getLastD 0) :
+    t.forceExtrap.eval x = t.eval x ∧ t.forceExtrap.pts = t.pts ∧ t.forceExtrap.vals = t.vals ∧
+      t.forceExtrap.keepNeg = t.keepNeg := by
+  refine ⟨?_, rfl, rfl, rfl⟩
+  simp only [Table.eval, Table.forceExtrap, if_neg (not_lt.mpr h1), if_neg (not_lt.mpr h2)]
+
+/-- **the call returns** whenever the operand is admitted, both band integrals can be formed, the source's
+is positive and (magnitude units) the quotient is positive — with the factor `factorValue` -/
+theorem normalize_returns (E : Env K) (P : OverlapPar K) (self band : Spec K) (target : K)
+    (u : FluxUnit K) (wl : Option (List K)) (force : Bool) (area : Option K) (vega : Option (Synphot.Tree K))
+    (s' : Spec K) (wn : Bool) (sm bm : Synphot.Tree K) (total std : K)
+    (hadm : normalizeAdmit E P self band wl force = .ok (s', wn))
+    (h1 : s'.model = .ok sm) (h2 : band.model = .ok bm)
+    (h3 : normalizeIntegrals E P sm bm u wl area vega = .ok (total, std)) (hpos : 0 < total)
+    (hq : u.isMag = true → 0 < total / std) :
+    normalizeFactor E P self band target u wl force area vega = .ok (factorValue E.T u target total std, s', wn) :=
+  normalizeFactor_of_pieces hadm h1 h2 h3 hpos hq
+
+/-! ## Non-vacuity
+
+Sums level: constants all 1 (`Witness.phys`), the real transcendental functions, source × band samples
+`(2, 2), (4, 2)`, bandpass samples `(2, 1), (4, 1)`: `total = 4`, `∫λP = 6`, `∫P/λ = 3/4`. -/
+
+section NonVacuity
+open Witness
+
+private theorem wObs : (0 : ℝ) < trapz [(2, 2), (4, 2)] := by norm_num [trapz]
+private theorem wObs' : trapz [((2 : ℝ), (2 : ℝ)), (4, 2)] ≠ 0 := ne_of_gt wObs
+private theorem wB : (0 : ℝ) < trapz (C09.timesLam [(2, 1), (4, 1)]) := by norm_num [trapz, C09.timesLam]
+private theorem wA : (0 : ℝ) < trapz (C09.overLam [(2, 1), (4, 1)]) := by norm_num [trapz, C09.overLam]
+private theorem wPos : ∀ p ∈ ([(2, 2), (4, 2)] : List (ℝ × ℝ)), p.1 ≠ 0 := by
+  intro p hp; simp only [List.mem_cons, List.not_mem_nil, or_false] at hp; rcases hp with rfl | rfl <;> norm_num
+private theorem wPosb : ∀ p ∈ ([(2, 1), (4, 1)] : List (ℝ × ℝ)), p.1 ≠ 0 := by
+  intro p hp; simp only [List.mem_cons, List.not_mem_nil, or_false] at hp; rcases hp with rfl | rfl <;> norm_num
+
+example : 0 < factorValue Transc.real (.jy (1 / 1000)) 3 4 (3 / 4) :=
+  factor_pos_every_unit Transc.real Transc.real_lawful _ 3 4 (3 / 4) (by norm_num) (by norm_num) (Or.inr (by norm_num))
+example (m : ℝ) : 0 < factorValue Transc.real .abmag m 4 6 :=
+  factor_pos_every_unit Transc.real Transc.real_lawful _ m 4 6 (by norm_num) (by norm_num) (Or.inl rfl)
+
+/-- 3 mJy -/
+example := normalize_hits_target_jy (phys : PhysConst ℝ) Transc.real phys_pos Transc.real_lawful
+  [(2, 2), (4, 2)] [(2, 1), (4, 1)] (1 / 1000) 3 (by norm_num) (by norm_num) wPos wPosb wObs wB wA
+/-- −2.5 STmag, 30 ABmag -/
+example := normalize_hits_target_stmag (phys : PhysConst ℝ) Transc.real phys_pos Transc.real_lawful
+  [(2, 2), (4, 2)] [(2, 1), (4, 1)] (-5 / 2) wPos wObs wB
+example := normalize_hits_target_abmag (phys : PhysConst ℝ) Transc.real phys_pos Transc.real_lawful
+  [(2, 2), (4, 2)] [(2, 1), (4, 1)] 30 wPos wPosb wObs wB wA
+/-- fluxes 2, 2 with count factors 2, 2 (bin width 2 × area 1): 8 counts before, 5 after -/
+example : (mulFactors (([2, 2] : List ℝ).map (factorValue Transc.real .count 5 (mulFactors [2, 2] [2, 2]).sum 1 * ·)) [2, 2]).sum = 5 :=
+  normalize_hits_target_count Transc.real [2, 2] [2, 2] 5 (by norm_num [mulFactors])
+example := normalize_hits_target_obmag Transc.real Transc.real_lawful ([2, 2] : List ℝ) [2, 2] (-1) (by norm_num [mulFactors])
+/-- Vega × band samples `(2, 1), (4, 1)` -/
+example := normalize_hits_target_vegamag Transc.real Transc.real_lawful [(2, 2), (4, 2)] [((2 : ℝ), (1 : ℝ)), (4, 1)] (7 / 2)
+  wObs (by norm_num [trapz])
+example := normalize_matches_flat (phys : PhysConst ℝ) Transc.real .photnu trivial [(2, 2), (4, 2)] [(2, 1), (4, 1)] 3 wObs'
+example := normalize_photlam_rate Transc.real (phys : PhysConst ℝ) [(2, 2), (4, 2)] [(2, 1), (4, 1)] 3 wObs'
+
+/-! Model level: the call `normalize(target, band)` of a source flat at 2 PHOTLAM (`Witness.src 2`, no
+sampling set ⇒ full overlap) through the box bandpass `Witness.band` (height 1 on [1, 5], sampled at 2
+and 4), constants all 1, real transcendental functions: `total = 4`; the call returns. -/
+
+noncomputable abbrev wE : Env ℝ := Witness.env Transc.real
+
+/-- the witness call returns for a flux-density unit whose standard spectrum is `ConstFlux1D` -/
+private theorem w_call (u : FluxUnit ℝ) (hu : u ≠ .count) (hu' : u ≠ .obmag) (target : ℝ)
+    (area : Option ℝ) (vega : Option (Synphot.Tree ℝ)) (a0 : ℝ) (u0 : FluxUnit ℝ)
+    (hstd : stdTreeOf wE u vega = .ok (.leaf (.constFlux a0 u0))) (hu0 : IsLinearDensity u0)
+    (hq : 0 < |(|flatPhotlam phys u0 a0 2| + |flatPhotlam phys u0 a0 4|)|) :
+    normalizeFactor wE par (src 2) band target u none false area vega =
+      .ok (factorValue Transc.real u target |(|(2 : ℝ)| + |2|)| |(|flatPhotlam phys u0 a0 2| + |flatPhotlam phys u0 a0 4|)|,
+        src 2, false) :=
+  normalizeFactor_of_pieces (admitOk wE 2 false) (src_model 2) band_model
+    (integrals_density Transc.real 2 u hu hu' area vega a0 u0 hstd hu0) (by positivity)
+    (fun _ => div_pos (by positivity) hq)
+
+private theorem w_tot : |(|(2 : ℝ)| + |2|)| = 4 := by norm_num [abs_of_pos]
+
+example : ∃ k, normalizeFactor wE par (src 2) band 3 .flam none false none none = .ok (k, src 2, false) ∧ 0 < k :=
+  ⟨_, w_call .flam (by intro h; cases h) (by intro h; cases h) 3 none none 1 .flam rfl trivial
+      (by norm_num [flatPhotlam, phys]), by
+    apply factorValue_pos Transc.real_lawful <;> norm_num [flatPhotlam, phys]⟩
+
+/-- FLAM: the normalised observation has `effstim('flam') = 3` -/
+example (atol rtol : ℝ) : ∃ k, effstim wE par.mergeThr atol rtol (obs 2 k) .flam none none none = .ok 3 :=
+  ⟨_, normalize_flam_model wE phys_pos par (src 2) band 3 none false none none _ (src 2) false atol rtol
+    (w_call .flam (by intro h; cases h) (by intro h; cases h) 3 none none 1 .flam rfl trivial
+      (by norm_num [flatPhotlam, phys]))
+    (by apply factorValue_pos Transc.real_lawful <;> norm_num [flatPhotlam, phys])
+    (flatTree 2) bandTree (src_model 2) band_model (prod_nonneg wE 2 (by norm_num)) (band_nonneg wE)
+    (obs 2 _) rfl rfl none none⟩
+
+/-- STmag -/
+example (atol rtol m : ℝ) : ∃ k, effstim wE par.mergeThr atol rtol (obs 2 k) .stmag none none none = .ok m :=
+  ⟨_, normalize_stmag_model wE phys_pos Transc.real_lawful par (src 2) band m none false none none _ (src 2) false atol rtol
+    (w_call .stmag (by intro h; cases h) (by intro h; cases h) m none none 1 .flam rfl trivial
+      (by norm_num [flatPhotlam, phys]))
+    (flatTree 2) bandTree (src_model 2) band_model (prod_nonneg wE 2 (by norm_num)) (band_nonneg wE)
+    (obs 2 _) rfl rfl none none⟩
+
+private theorem w_pivot_pos : (0 : ℝ) < Real.sqrt |6 / (3 / 4)| := by
+  apply Real.sqrt_pos.mpr; norm_num
+
+/-- 3 mJy, 3 FNU, m ABmag (positive pivot `sqrt 8`) -/
+example (atol rtol : ℝ) : ∃ k, effstim wE par.mergeThr atol rtol (obs 2 k) (.jy (1 / 1000)) none none none = .ok 3 :=
+  ⟨_, normalize_jy_model_partial wE phys_pos Transc.real_lawful par (src 2) band (1 / 1000) 3 (by norm_num)
+    false none none _ (src 2) false atol rtol
+    (w_call (.jy (1 / 1000)) (by intro h; cases h) (by intro h; cases h) 3 none none 1 (.jy (1 / 1000)) rfl trivial
+      (by norm_num [flatPhotlam, phys]))
+    (by apply factorValue_pos Transc.real_lawful <;> norm_num [flatPhotlam, phys])
+    (flatTree 2) bandTree (src_model 2) band_model (prod_nonneg wE 2 (by norm_num)) (band_nonneg wE)
+    (obs 2 _) rfl rfl none none⟩
+
+example (atol rtol : ℝ) : ∃ k, effstim wE par.mergeThr atol rtol (obs 2 k) (.jy (1 / 1000)) none none none = .ok 3 :=
+  ⟨_, normalize_jy_of_pivot wE phys_pos Transc.real_lawful par (src 2) band (1 / 1000) 3 (by norm_num) (by norm_num)
+    false none none _ (src 2) false atol rtol
+    (w_call (.jy (1 / 1000)) (by intro h; cases h) (by intro h; cases h) 3 none none 1 (.jy (1 / 1000)) rfl trivial
+      (by norm_num [flatPhotlam, phys]))
+    (flatTree 2) bandTree (src_model 2) band_model (prod_nonneg wE 2 (by norm_num)) (band_nonneg wE)
+    _ (pivot_val Transc.real _) w_pivot_pos (obs 2 _) rfl rfl none none⟩
+
+example (atol rtol : ℝ) : ∃ k, effstim wE par.mergeThr atol rtol (obs 2 k) .fnu none none none = .ok 3 :=
+  ⟨_, normalize_fnu_model_partial wE phys_pos Transc.real_lawful par (src 2) band 3
+    false none none _ (src 2) false atol rtol
+    (w_call .fnu (by intro h; cases h) (by intro h; cases h) 3 none none 1 .fnu rfl trivial
+      (by norm_num [flatPhotlam, phys]))
+    (by apply factorValue_pos Transc.real_lawful <;> norm_num [flatPhotlam, phys])
+    (flatTree 2) bandTree (src_model 2) band_model (prod_nonneg wE 2 (by norm_num)) (band_nonneg wE)
+    (obs 2 _) rfl rfl none none⟩
+
+example (atol rtol : ℝ) : ∃ k, effstim wE par.mergeThr atol rtol (obs 2 k) .fnu none none none = .ok 3 :=
+  ⟨_, normalize_fnu_of_pivot wE phys_pos Transc.real_lawful par (src 2) band 3 (by norm_num)
+    false none none _ (src 2) false atol rtol
+    (w_call .fnu (by intro h; cases h) (by intro h; cases h) 3 none none 1 .fnu rfl trivial
+      (by norm_num [flatPhotlam, phys]))
+    (flatTree 2) bandTree (src_model 2) band_model (prod_nonneg wE 2 (by norm_num)) (band_nonneg wE)
+    _ (pivot_val Transc.real _) w_pivot_pos (obs 2 _) rfl rfl none none⟩
+
+example (atol rtol m : ℝ) : ∃ k, effstim wE par.mergeThr atol rtol (obs 2 k) .abmag none none none = .ok m :=
+  ⟨_, normalize_abmag_model_partial wE phys_pos Transc.real_lawful par (src 2) band m
+    false none none _ (src 2) false atol rtol
+    (w_call .abmag (by intro h; cases h) (by intro h; cases h) m none none 1 .fnu rfl trivial
+      (by norm_num [flatPhotlam, phys]))
+    (flatTree 2) bandTree (src_model 2) band_model (prod_nonneg wE 2 (by norm_num)) (band_nonneg wE)
+    (obs 2 _) rfl rfl none none⟩
+
+example (atol rtol m : ℝ) : ∃ k, effstim wE par.mergeThr atol rtol (obs 2 k) .abmag none none none = .ok m :=
+  ⟨_, normalize_abmag_of_pivot wE phys_pos Transc.real_lawful par (src 2) band m
+    false none none _ (src 2) false atol rtol
+    (w_call .abmag (by intro h; cases h) (by intro h; cases h) m none none 1 .fnu rfl trivial
+      (by norm_num [flatPhotlam, phys]))
+    (flatTree 2) bandTree (src_model 2) band_model (prod_nonneg wE 2 (by norm_num)) (band_nonneg wE)
+    _ (pivot_val Transc.real _) w_pivot_pos (obs 2 _) rfl rfl none none⟩
+
+/-- PHOTNU: same photon rate as the spectrum flat at 3 PHOTNU -/
+example := normalize_photon_rate_model wE par (src 2) band 3 .photnu trivial (by norm_num) none false none none _ (src 2) false
+    (w_call .photnu (by intro h; cases h) (by intro h; cases h) 3 none none 1 .photnu rfl trivial
+      (by norm_num [flatPhotlam, phys]))
+    (flatTree 2) bandTree (src_model 2) band_model
+
+/-- VEGAMAG with "Vega" flat at 1 PHOTLAM -/
+private theorem w_call_vega (m : ℝ) :
+    normalizeFactor wE par (src 2) band m .vegamag none false none (some (flatTree 1)) =
+      .ok (factorValue Transc.real .vegamag m |(|(2 : ℝ)| + |2|)| |(|(1 : ℝ)| + |1|)|, src 2, false) :=
+  normalizeFactor_of_pieces (admitOk wE 2 false) (src_model 2) band_model
+    (integrals_vega Transc.real 2 1 none) (by positivity) (fun _ => by positivity)
+
+example (atol rtol m : ℝ) :
+    ∃ k, effstim wE par.mergeThr atol rtol (obs 2 k) .vegamag none none (some (flatTree 1)) = .ok m :=
+  ⟨_, normalize_vegamag_model_partial wE Transc.real_lawful par (src 2) band m false none none (flatTree 1) _ (src 2) false atol rtol
+    (w_call_vega m) (flatTree 2) bandTree (src_model 2) band_model (obs 2 _) rfl rfl⟩
+
+/-- count / OBMAG with area 1: count factors 2, 2, `total = 8` -/
+private theorem w_call_count (u : FluxUnit ℝ) (hu : u = .count ∨ u = .obmag) (t : ℝ) :
+    normalizeFactor wE par (src 2) band t u none false (some 1) none =
+      .ok (factorValue Transc.real u t ((2 : ℝ) * 1 * (2 * 1) + (2 * 1 * (2 * 1) + 0)) 1, src 2, false) :=
+  normalizeFactor_of_pieces (admitOk wE 2 false) (src_model 2) band_model
+    (integrals_count Transc.real 2 1 u hu none) (by norm_num) (fun _ => by norm_num)
+
+example (atol rtol : ℝ) : ∃ k, countrate wE par.mergeThr atol rtol (obs 2 k) (some 1) false none none false = .ok 5 :=
+  ⟨_, (normalize_count_model wE par (src 2) band 5 none false (some 1) none _ (src 2) false atol rtol
+    (w_call_count .count (Or.inl rfl) 5) (by norm_num) (flatTree 2) bandTree (src_model 2) band_model (obs 2 _) rfl).1⟩
+
+example (atol rtol m : ℝ) : ∃ k, effstim wE par.mergeThr atol rtol (obs 2 k) .obmag none (some 1) none = .ok m :=
+  ⟨_, normalize_obmag_model wE Transc.real_lawful par (src 2) band m none false (some 1) none _ (src 2) false atol rtol
+    (w_call_count .obmag (Or.inr rfl) m) (flatTree 2) bandTree (src_model 2) band_model (obs 2 _) rfl⟩
+
+example : 0 < factorValue Transc.real .obmag (-1) ((2 : ℝ) * 1 * (2 * 1) + (2 * 1 * (2 * 1) + 0)) 1 :=
+  returned_factor_pos wE Transc.real_lawful par (src 2) band (-1) .obmag none false (some 1) none _ (src 2) false
+    (w_call_count .obmag (Or.inr rfl) (-1)) (Or.inl rfl)
+
+example := factor_formula wE par (src 2) band 3 .fnu none false none none _ (src 2) false
+    (w_call .fnu (by intro h; cases h) (by intro h; cases h) 3 none none 1 .fnu rfl trivial
+      (by norm_num [flatPhotlam, phys]))
+
+/-! errors: the same call without an area / without Vega; a source flat at 0 -/
+
+example : normalizeFactor wE par (src 2) band 5 .count none false none none = .error .synphotError :=
+  missing_area_error_class wE par (src 2) band 5 .count (Or.inl rfl) none false none (src 2) false (flatTree 2) bandTree
+    [2, 4] _ (admitOk wE 2 false) (src_model 2) band_model (grid_of _ _ rfl)
+    (prod_samples wE (flatTree 2) (fun _ => 2) (flat_eval wE 2))
+
+example : normalizeFactor wE par (src 2) band 5 .vegamag none false none none = .error .synphotError :=
+  missing_vega_error_class wE par (src 2) band 5 none false none (src 2) false (flatTree 2) bandTree
+    [2, 4] _ (admitOk wE 2 false) (src_model 2) band_model (grid_of _ _ rfl)
+    (prod_integral wE (flatTree 2) (fun _ => 2) (flat_eval wE 2))
+
+/-- a source that is zero in the band: `total = 0` -/
+example : normalizeFactor wE par (src 0) band 5 .flam none false none none = .error .synphotError :=
+  nonpositive_band_integral_raises wE par (src 0) band 5 .flam none false none none (src 0) false (flatTree 0) bandTree _ _
+    (admitOk wE 0 false) (src_model 0) band_model
+    (integrals_density Transc.real 0 .flam (by intro h; cases h) (by intro h; cases h) none none 1 .flam rfl trivial)
+    (by norm_num)
+
+example : normalizeAdmit wE par (src 2) band none true = .ok (src 2, false) :=
+  (admit_verdicts wE par (src 2) band none true rfl).1 (overlap_full wE 2)
+
+/-! partial overlap: a table on `[3, 4]` through the box sampled at 2 and 4 — half of the throughput is
+outside the table: `partial_notmost`; refused without `force`, proceeds (on the extrapolating operand,
+with the warning) with it -/
+
+example : normalizeFactor wE par tabSrc band 3 .flam none false none none = .error .partialOverlap :=
+  (overlap_errors wE par tabSrc band 3 .flam none false none none rfl).2 (overlap_partial wE) rfl
+
+example : normalizeFactor wE par tabSrc band 3 .flam none true none none =
+    (normalizeScalar wE par (tabSrc.forceExtrap).1 band 3 .flam none none none).map
+      fun k => (k, (tabSrc.forceExtrap).1, true) :=
+  partial_overlap_proceeds wE par tabSrc band 3 .flam none true none none rfl (Or.inr ⟨overlap_partial wE, rfl⟩)
+
+example : normalizeAdmit wE par tabSrc band none true = .ok ((tabSrc.forceExtrap).1, true) :=
+  (admit_verdicts wE par tabSrc band none true rfl).2.2.1 (overlap_partial wE) rfl
+
+/-- the operand of the FLAM witness call comes back untouched -/
+example := operand_after_call wE par (src 2) band 3 .flam none false none none _ (src 2) false
+    (w_call .flam (by intro h; cases h) (by intro h; cases h) 3 none none 1 .flam rfl trivial
+      (by norm_num [flatPhotlam, phys]))
+
+/-- inside `[3, 4]` the extrapolating table is the table -/
+example : (⟨[3, 4], [2, 2], false, false⟩ : Table ℝ).forceExtrap.eval (7 / 2) =
+    (⟨[3, 4], [2, 2], false, false⟩ : Table ℝ).eval (7 / 2) :=
+  (extrapolation_switch_inside _ _ (by norm_num [List.headD]) (by norm_num [List.getLastD])).1
+
+example : ∃ k, normalizeFactor wE par (src 2) band 3 .fnu none false none none = .ok (k, src 2, false) :=
+  ⟨_, normalize_returns wE par (src 2) band 3 .fnu none false none none (src 2) false (flatTree 2) bandTree _ _
+    (admitOk wE 2 false) (src_model 2) band_model
+    (integrals_density Transc.real 2 .fnu (by intro h; cases h) (by intro h; cases h) none none 1 .fnu rfl trivial)
+    (by positivity) (fun h => by cases h)⟩
+
+end NonVacuity
 
 end Synphot.C10
